@@ -38,9 +38,15 @@ type c18TaggedArr struct {
 	A [2]int `cty:"a"`
 }
 
+// C18Inner is exported so that embedding it yields an exported (settable) field
+type C18Inner struct {
+	A int    `cty:"a"`
+	B string `cty:"b"`
+}
+
 type c18Emb struct {
-	c18S1 `cty:"emb"`
-	Z     int `cty:"z"`
+	C18Inner `cty:"emb"`
+	Z        int `cty:"z"`
 }
 
 type c18Irregular struct {
